@@ -176,6 +176,26 @@ def use_scratch(d):
     return pyndl
 
 
+def changed_anchors(prop):
+    """anchor files of the property (properties.jsonl) whose content differs from anchors_baseline.json"""
+    try:
+        base = json.load(open(os.path.join(VERIF, 'anchors_baseline.json')))['sha256']
+        files = []
+        for line in open(os.path.join(VERIF, 'properties.jsonl')):
+            p = json.loads(line)
+            if p['id'] == prop:
+                files = p['anchors']['files']
+        out = []
+        for f in files:
+            fp = os.path.join(REPO, f)
+            h = hashlib.sha256(open(fp, 'rb').read()).hexdigest() if os.path.exists(fp) else None
+            if f in base and h != base[f]:
+                out.append(f)
+        return out
+    except Exception:  # noqa
+        return []
+
+
 # --------------------------------------------------------------------------
 # Lean side
 # --------------------------------------------------------------------------
